@@ -24,7 +24,7 @@ RULE = (
     "pair; distinct = (operation, parameters, input hash, seed); non-trivial = the operation returned in both runs"
 )
 ASSUMPTIONS = ["thorough tier repeats the CLI steps as real subprocesses under two PYTHONHASHSEED values", "line-granular injection uses sys.monitoring LINE events on code objects whose file lies under the tree under test"]
-REQUIRED = {"dbal_kernel_pairs_on_the_callers_arrays": {"quick": 100, "thorough": 1000}, "pairs_compared": {"quick": 400, "thorough": 8000}, "global_state_checks": {"quick": 400, "thorough": 8000}, "injected_global_draws": {"quick": 2000, "thorough": 50000}, "training_pairs": {"quick": 16, "thorough": 300}, "training_pairs_same_model": {"quick": 16, "thorough": 300}, "training_with_non_default_switches": {"quick": 6, "thorough": 100}, "vi_training_pairs": {"quick": 40, "thorough": 600}, "reused_scorer_pairs": {"quick": 30, "thorough": 600}, "dbal_pairs_many_samples": {"quick": 12, "thorough": 48}, "second_runs_on_an_object_with_a_past": {"quick": 60, "thorough": 1200}, "grid_model_training_pairs": {"quick": 2, "thorough": 16}, "cli_pairs": {"quick": 24, "thorough": 400}, "cli_subprocess_pairs": {"quick": 2, "thorough": 16}}
+REQUIRED = {"pairs_with_positional_arguments": {"quick": 10, "thorough": 200}, "dbal_kernel_pairs_on_the_callers_arrays": {"quick": 100, "thorough": 1000}, "pairs_compared": {"quick": 400, "thorough": 8000}, "global_state_checks": {"quick": 400, "thorough": 8000}, "injected_global_draws": {"quick": 2000, "thorough": 50000}, "training_pairs": {"quick": 16, "thorough": 300}, "training_pairs_same_model": {"quick": 16, "thorough": 300}, "training_with_non_default_switches": {"quick": 6, "thorough": 100}, "vi_training_pairs": {"quick": 40, "thorough": 600}, "reused_scorer_pairs": {"quick": 30, "thorough": 600}, "dbal_pairs_many_samples": {"quick": 12, "thorough": 48}, "second_runs_on_an_object_with_a_past": {"quick": 60, "thorough": 1200}, "grid_model_training_pairs": {"quick": 2, "thorough": 16}, "cli_pairs": {"quick": 24, "thorough": 400}, "cli_subprocess_pairs": {"quick": 2, "thorough": 16}}
 N_OPS = {"quick": 640, "thorough": 12800}
 TOOL = 4
 
@@ -255,6 +255,7 @@ def run_shard(rec, tier, seed, shard, nshards):
         pair(rec, "GaussianDBALScorer-reused-object", "max_triples=%d" % budget, reused(lambda: G.GaussianDBALScorer(max_chunk=int(2), max_triples=budget), {}), lambda r: sorted((int(k), float(v).hex()) for k, v in r.items()), w, case_key=("dbal-reused", s0, T, budget), count_as="reused_scorer_pairs")
         pair(rec, "RandomScorer-reused-object", "", reused(lambda: RandomScorer(), {}), lambda r: sorted((int(k), float(v)) for k, v in r.items()), w, case_key=("rand-reused", s0, len(plates)), count_as="reused_scorer_pairs")
         pair(rec, "score_chunk", "RandomScorer", lambda: score_chunk(RandomScorer(), holder, screen, cdm, rng=np.random.default_rng(s0), n_chunks=nch, chunk_index=cidx), lambda h: [kit.array_hash(h.scores), kit.array_hash(h.plate_ids)], w, case_key=("score_chunk", s0, nch, cidx))
+        pair(rec, "score_chunk", "RandomScorer, arguments by position", lambda: score_chunk(RandomScorer(), holder, screen, cdm, np.random.default_rng(s0)), lambda h: [kit.array_hash(h.scores), kit.array_hash(h.plate_ids)], w, case_key=("score_chunk-positional", s0), count_as="pairs_with_positional_arguments")
         pair(rec, "score_chunk", "GaussianDBALScorer", lambda: score_chunk(G.GaussianDBALScorer(max_triples=budget), holder, screen, cdm, rng=np.random.default_rng(s0), n_chunks=nch, chunk_index=cidx), lambda h: [kit.array_hash(h.scores), kit.array_hash(h.plate_ids)], w, case_key=("score_chunk-dbal", s0, nch, cidx, budget))
         allh = ChunkedScoresHolder(len(plates))
         for pid in plates:
